@@ -910,4 +910,38 @@ theorem isAbsolutePathname_eq (v : Bytes) (url : Bool) :
       by_cases h : b = 0x2F <;> simp [h]
     simp only [List.isEmpty_cons, Bool.false_eq_true, ↓reduceIte, List.head?_cons, hh, hl, h0, h0', h1]
 
+/-! ### `process_*` -/
+
+theorem canonPort_fake (v : Bytes) : Spec.Pattern.canonPort v (some [0x66, 0x61, 0x6B, 0x65]) = Spec.Pattern.canonPort v none := by
+  unfold Spec.Pattern.canonPort
+  have : (some ([0x66, 0x61, 0x6B, 0x65] : Bytes)).bind defaultPort = none := by decide
+  simp only [this, Option.bind_none]
+
+theorem processPort_eq (port protocol : Bytes) (pat : Bool) (hp : protocol.getLast? ≠ some 0x3A) :
+    processPort port protocol pat = Spec.Pattern.processPortForInit port protocol pat := by
+  unfold processPort Spec.Pattern.processPortForInit
+  cases pat with
+  | true => rfl
+  | false =>
+    simp only [Bool.false_eq_true, ↓reduceIte]
+    rw [port_with_protocol_eq]
+    unfold portProtocol
+    by_cases he : protocol.isEmpty = true
+    · simp only [he, ↓reduceIte]; exact canonPort_fake port
+    · have hb : (protocol.getLast? == some 0x3A) = false := by simpa using hp
+      simp only [he, Bool.false_eq_true, ↓reduceIte, hb]
+
+theorem processSimple_eq (value : Bytes) (pat : Bool) :
+    processUsername value pat = Spec.Pattern.processUsernameForInit value pat ∧
+    processPassword value pat = Spec.Pattern.processPasswordForInit value pat ∧
+    processSearch value pat = Spec.Pattern.processSearchForInit value pat ∧
+    processHash value pat = Spec.Pattern.processHashForInit value pat := by
+  unfold processUsername processPassword processSearch processHash Spec.Pattern.processUsernameForInit
+    Spec.Pattern.processPasswordForInit Spec.Pattern.processSearchForInit Spec.Pattern.processHashForInit
+  cases pat with
+  | true => exact ⟨rfl, rfl, rfl, rfl⟩
+  | false =>
+    simp only [Bool.false_eq_true, ↓reduceIte]
+    exact ⟨username_eq _, password_eq _, search_eq _, hash_eq _⟩
+
 end AdaVerif.Lemmas.PC
